@@ -41,7 +41,8 @@ func one(s string) oset { return oset{s: true} }
 
 type lk struct {
 	w        bool
-	deferred bool // its unlock is already deferred: held until the function returns
+	deferred bool   // its unlock is already deferred: held until the function returns
+	sec      string // critical section: which acquisition this hold belongs to
 }
 
 type lockset map[string]lk
@@ -52,6 +53,15 @@ func (l lockset) copy() lockset {
 		c[k] = v
 	}
 	return c
+}
+
+func (l lockset) secKey() string {
+	ks := make([]string, 0, len(l))
+	for k, v := range l {
+		ks = append(ks, k+"@"+v.sec)
+	}
+	sort.Strings(ks)
+	return strings.Join(ks, ",")
 }
 
 func (l lockset) key() string {
@@ -72,7 +82,7 @@ func meet(a, b lockset) lockset {
 	c := lockset{}
 	for k, v := range a {
 		if w, ok := b[k]; ok {
-			c[k] = lk{w: v.w && w.w, deferred: v.deferred && w.deferred}
+			c[k] = lk{w: v.w && w.w, deferred: v.deferred && w.deferred, sec: v.sec}
 		}
 	}
 	return c
@@ -97,11 +107,51 @@ type fact struct {
 	Var   string      `json:"var"`
 	Field string      `json:"field"` // type-level name (no @owner)
 	Write bool        `json:"write"`
+	Kind  int         `json:"kind"` // 0 read, 1 read-modify-write in one statement, 2 plain store, 3 split update
 	Locks [][2]string `json:"locks"`
 	Site  string      `json:"site"`
 	Fn    string      `json:"fn"`
 	Via   string      `json:"via,omitempty"` // entry point / thread through which it was first reached
+	// stores whose value or guard derives from a load of the same variable in another critical section
+	Issues []issue `json:"issues,omitempty"`
 }
+
+const (
+	kRead  = 0
+	kRMW   = 1
+	kStore = 2
+	kSplit = 3
+)
+
+type issue struct {
+	What string `json:"what"` // split | stale
+	Lock string `json:"lock"`
+	Load string `json:"load_site"`
+}
+
+// loadRec: a read of a shared variable and the critical section of every lock held at that moment
+type loadRec struct {
+	v    string
+	secs map[string]string
+	site string
+}
+
+func (r loadRec) key() string {
+	ks := make([]string, 0, len(r.secs))
+	for k, v := range r.secs {
+		ks = append(ks, k+"@"+v)
+	}
+	sort.Strings(ks)
+	return r.v + "|" + strings.Join(ks, ",")
+}
+
+// flow: what one activation of a function (and the calls it made) has loaded so far
+type flow struct {
+	loads map[string]loadRec
+	taint map[*types.Var][]loadRec
+}
+
+func newFlow() *flow { return &flow{loads: map[string]loadRec{}, taint: map[*types.Var][]loadRec{}} }
 
 type analyzer struct {
 	l            *loader
@@ -115,6 +165,8 @@ type analyzer struct {
 	lockTypes    map[*types.Named]bool
 	facts        map[string]*fact
 	memo         map[string]bool
+	summ         map[string]map[string]loadRec // loads performed by an analysed context (merged into its callers)
+	secN         int
 	retMemo      map[string][]oset
 	retBusy      map[string]bool
 	staticEnvs   map[*funcInfo]*env
@@ -1037,10 +1089,14 @@ func (a *analyzer) returns(fi *funcInfo, ne *env) []oset {
 // ---------------------------------------------------------------- the walk
 
 type walker struct {
-	a     *analyzer
-	en    *env
-	locks lockset
-	term  bool
+	a        *analyzer
+	en       *env
+	locks    lockset
+	term     bool
+	fl       *flow
+	collect  *[]loadRec // loads seen while evaluating the right-hand side of an assignment
+	wkind    int        // kind of the write being emitted (0 = plain store)
+	rhsLoads []loadRec  // what the stored value derives from
 }
 
 func (a *analyzer) site(p token.Pos) string {
@@ -1054,22 +1110,36 @@ func (a *analyzer) site(p token.Pos) string {
 
 func (a *analyzer) note(s string) { a.notes[s] = true }
 
-func (a *analyzer) analyze(fi *funcInfo, ne *env, locks lockset) {
-	k := envKey(fi, ne) + "||" + locks.key()
+func (a *analyzer) analyze(fi *funcInfo, ne *env, locks lockset) map[string]loadRec {
+	k := envKey(fi, ne) + "||" + locks.key() + "||" + locks.secKey()
 	if a.memo[k] {
-		return
+		return a.summ[k]
 	}
 	a.memo[k] = true
 	if os.Getenv("LOCKS_DEBUG") != "" && strings.Contains(fi.name, os.Getenv("LOCKS_DEBUG")) {
 		fmt.Fprintln(os.Stderr, "analyze", k)
 	}
-	w := &walker{a: a, en: ne, locks: locks.copy()}
+	w := &walker{a: a, en: ne, locks: locks.copy(), fl: newFlow()}
 	// locks inherited from the caller stay held for the whole call
 	for n, v := range w.locks {
 		v.deferred = true
 		w.locks[n] = v
 	}
 	w.block(fi.body.List)
+	a.summ[k] = w.fl.loads
+	return w.fl.loads
+}
+
+// merge the loads of a callee into this activation
+func (w *walker) merge(m map[string]loadRec) {
+	for k, r := range m {
+		if _, ok := w.fl.loads[k]; !ok {
+			w.fl.loads[k] = r
+		}
+		if w.collect != nil {
+			*w.collect = append(*w.collect, r)
+		}
+	}
 }
 
 func (w *walker) emitField(x *ast.SelectorExpr, write bool) {
@@ -1116,9 +1186,74 @@ func (w *walker) emit(field, ownerType string, origins oset, write bool, pos tok
 		}
 		sort.Slice(ls, func(i, j int) bool { return ls[i][0] < ls[j][0] })
 		ft := &fact{Var: name, Field: field, Write: write, Locks: ls, Site: a.site(pos), Fn: w.en.fn.name, Via: a.curVia}
-		k := fmt.Sprintf("%s|%v|%v|%s", name, write, ls, ft.Site)
-		if _, ok := a.facts[k]; !ok {
+		secs := map[string]string{}
+		for n, v := range w.locks {
+			secs[n] = v.sec
+		}
+		if !write {
+			r := loadRec{v: name, secs: secs, site: ft.Site}
+			if _, ok := w.fl.loads[r.key()]; !ok {
+				w.fl.loads[r.key()] = r
+			}
+			if w.collect != nil {
+				*w.collect = append(*w.collect, r)
+			}
+		} else {
+			ft.Kind = w.wkind
+			if ft.Kind == 0 {
+				ft.Kind = kStore
+			}
+			if ft.Kind == kStore {
+				seen := map[string]bool{}
+				add := func(is issue) {
+					k := is.What + is.Lock + is.Load
+					if !seen[k] {
+						seen[k] = true
+						ft.Issues = append(ft.Issues, is)
+					}
+				}
+				// the stored value derives from a load of this variable in another critical section
+				for _, r := range w.rhsLoads {
+					if r.v != name {
+						continue
+					}
+					for n, sb := range secs {
+						if r.secs[n] != sb {
+							add(issue{What: "split", Lock: n, Load: r.site})
+						}
+					}
+				}
+				// check-then-act: the variable was looked at in an earlier critical section of this lock
+				// and is stored now without having been looked at again in the current one
+				for n, sb := range secs {
+					other, same := "", false
+					for _, r := range w.fl.loads {
+						if r.v != name {
+							continue
+						}
+						if sa, held := r.secs[n]; held {
+							if sa == sb {
+								same = true
+							} else if other == "" || r.site < other {
+								other = r.site
+							}
+						}
+					}
+					if other != "" && !same {
+						add(issue{What: "stale", Lock: n, Load: other})
+					}
+				}
+				sort.Slice(ft.Issues, func(i, j int) bool {
+					x, y := ft.Issues[i], ft.Issues[j]
+					return x.What+x.Lock+x.Load < y.What+y.Lock+y.Load
+				})
+			}
+		}
+		k := fmt.Sprintf("%s|%v|%d|%v|%s", name, write, ft.Kind, ls, ft.Site)
+		if old, ok := a.facts[k]; !ok {
 			a.facts[k] = ft
+		} else if len(ft.Issues) > len(old.Issues) {
+			old.Issues = ft.Issues
 		}
 	}
 }
@@ -1149,7 +1284,7 @@ func (w *walker) block(list []ast.Stmt) {
 }
 
 func (w *walker) fork() *walker {
-	return &walker{a: w.a, en: w.en, locks: w.locks.copy()}
+	return &walker{a: w.a, en: w.en, locks: w.locks.copy(), fl: w.fl, collect: w.collect}
 }
 
 // join the states of alternative paths; terminated paths do not flow on
@@ -1187,14 +1322,50 @@ func (w *walker) stmt(s ast.Stmt) {
 			}
 		}
 	case *ast.AssignStmt:
+		var recs [][]loadRec
 		for _, r := range x.Rhs {
+			c := []loadRec{}
+			saved := w.collect
+			w.collect = &c
 			w.expr(r)
+			w.collect = saved
+			c = append(c, w.taintsIn(r)...)
+			if saved != nil {
+				*saved = append(*saved, c...)
+			}
+			recs = append(recs, c)
 		}
-		for _, l := range x.Lhs {
+		opAssign := x.Tok != token.ASSIGN && x.Tok != token.DEFINE
+		for i, l := range x.Lhs {
+			var rl []loadRec
+			var rhs ast.Expr
+			if len(recs) > 0 {
+				j := i
+				if j >= len(recs) {
+					j = len(recs) - 1
+				}
+				rl, rhs = recs[j], x.Rhs[j]
+			}
+			if id, ok := unparen(l).(*ast.Ident); ok {
+				if v, ok := w.en.objOf(id).(*types.Var); ok && len(rl) > 0 {
+					w.fl.taint[v] = rl
+				} else if ok {
+					delete(w.fl.taint, v)
+				}
+				continue
+			}
+			w.wkind = kStore
+			if opAssign || w.selfRef(l, rhs) {
+				w.wkind = kRMW
+			}
+			w.rhsLoads = rl
 			w.lhs(l)
+			w.wkind, w.rhsLoads = 0, nil
 		}
 	case *ast.IncDecStmt:
+		w.wkind = kRMW
 		w.lhs(x.X)
+		w.wkind = 0
 	case *ast.DeclStmt:
 		if gd, ok := x.Decl.(*ast.GenDecl); ok {
 			for _, sp := range gd.Specs {
@@ -1410,10 +1581,12 @@ func (w *walker) lockName(e ast.Expr) string {
 func (w *walker) applyLock(name, op string) {
 	switch op {
 	case "Lock":
-		w.locks[name] = lk{w: true}
+		w.a.secN++
+		w.locks[name] = lk{w: true, sec: fmt.Sprintf("s%d", w.a.secN)}
 	case "RLock":
 		if cur, ok := w.locks[name]; !ok || !cur.w {
-			w.locks[name] = lk{w: false}
+			w.a.secN++
+			w.locks[name] = lk{w: false, sec: fmt.Sprintf("s%d", w.a.secN)}
 		}
 	case "Unlock", "RUnlock":
 		delete(w.locks, name)
@@ -1603,7 +1776,7 @@ func (w *walker) call(c *ast.CallExpr, at lockset, newThread bool) {
 				for _, p := range fi.params {
 					ne.bound[p] = a.defaultOrigin(p.Type())
 				}
-				a.analyze(fi, ne, w.cur(at))
+				w.merge(a.analyze(fi, ne, w.cur(at)))
 			}
 			continue
 		}
@@ -1622,7 +1795,9 @@ func (w *walker) call(c *ast.CallExpr, at lockset, newThread bool) {
 			}
 		}
 		ne := a.bind(cl.fi, cl, c, w.en)
-		a.analyze(cl.fi, ne, held)
+		if sm := a.analyze(cl.fi, ne, held); !newThread {
+			w.merge(sm)
+		}
 	}
 	if ext {
 		// a method of an external type invoked on one of our fields: unless it has a value receiver,
@@ -1640,7 +1815,9 @@ func (w *walker) call(c *ast.CallExpr, at lockset, newThread bool) {
 					if _, ro := a.readonlyMeth[full]; ro {
 						a.usedConfig[full] = true
 					} else if _, isL := isSyncLock(rt); !isL {
+						w.wkind = kRMW // the external method reads and writes its receiver within this one call
 						w.emitField(inner, true)
+						w.wkind = 0
 					}
 				}
 			}
@@ -1687,7 +1864,6 @@ func (w *walker) call(c *ast.CallExpr, at lockset, newThread bool) {
 			}
 		}
 	}
-	_ = newThread
 }
 
 func (w *walker) cur(at lockset) lockset {
@@ -1729,8 +1905,63 @@ func (w *walker) callbacks(arg ast.Expr, it *types.Interface, held lockset) {
 		for _, p := range fi.params {
 			ne.bound[p] = a.defaultOrigin(p.Type())
 		}
-		a.analyze(fi, ne, held)
+		w.merge(a.analyze(fi, ne, held))
 	}
+}
+
+// taintsIn: the loads that the locals mentioned in e were computed from
+func (w *walker) taintsIn(e ast.Expr) []loadRec {
+	var out []loadRec
+	if e == nil {
+		return nil
+	}
+	ast.Inspect(e, func(n ast.Node) bool {
+		if _, ok := n.(*ast.FuncLit); ok {
+			return false
+		}
+		if id, ok := n.(*ast.Ident); ok {
+			if v, ok := w.en.objOf(id).(*types.Var); ok {
+				out = append(out, w.fl.taint[v]...)
+			}
+		}
+		return true
+	})
+	return out
+}
+
+// selfRef: the assigned field occurs in the right-hand side of the same statement (x.f = g(x.f))
+func (w *walker) selfRef(l, rhs ast.Expr) bool {
+	if rhs == nil {
+		return false
+	}
+	var target *types.Var
+	for e := unparen(l); target == nil; {
+		switch x := e.(type) {
+		case *ast.SelectorExpr:
+			if sel := w.en.fn.pkg.info.Selections[x]; sel != nil && sel.Kind() == types.FieldVal {
+				target, _ = sel.Obj().(*types.Var)
+			}
+			if target == nil {
+				return false
+			}
+		case *ast.IndexExpr:
+			e = unparen(x.X)
+		case *ast.StarExpr:
+			e = unparen(x.X)
+		default:
+			return false
+		}
+	}
+	found := false
+	ast.Inspect(rhs, func(n ast.Node) bool {
+		if se, ok := n.(*ast.SelectorExpr); ok {
+			if sel := w.en.fn.pkg.info.Selections[se]; sel != nil && sel.Obj() == target {
+				found = true
+			}
+		}
+		return !found
+	})
+	return found
 }
 
 // ---------------------------------------------------------------- entry points
